@@ -31,6 +31,12 @@ def run(rep, tier, seed):
     # larger nestings by random simulation of the same specification
     interp.simulate_family(rep, "scope", seed, 3000 if tier == "thorough" else 600, cmp, devsets=devsets, min_size=4,
                            MaxNodes=6, MaxDepth=4)
+    ex, _ = vlib.example_traces()
+    vlib.validate_named_traces(rep, ex, "c15ex", "examples", budget=80000)
+    if tier == "thorough":
+        st, tail = vlib.suite_traces()
+        rep.notes["suite_run"] = tail
+        vlib.validate_named_traces(rep, st, "c15suite", "suite", budget=400000)
     interp.negative_control(rep, "scope", "LeakScopeOnError", {"ScopeBalanced", "ResultIsIdeal", "CleanAtEnd"}, MaxNodes=3)
     interp.negative_control(rep, "scope", "LateEnv", {"ResultIsIdeal"}, MaxNodes=3)
     rep.notes["rule"] = ("every document of the scope / reuse families within MaxNodes, enumerated by TLC; case = "
